@@ -152,6 +152,18 @@ PROPS["C14"] = dict(level="proof",
     assumptions=[ARITH, ENGINE, "index consistency and sizes are proved per dimension instance with state dimension <= 4 (De Moor m+L-1 <= 4, Hendrix m <= 2, Mirjalili m <= 4, Forest any S) with order limits symbolic; closure of the transition is proved for useful life 1..5 x lead time 1..4; larger dimension counts are covered only by the bounded harness",
                  "Mirjalili's random-event space is built with a boolean-mask filter (data-dependent length): its size and duplicate-freeness are checked by complete enumeration in the bounded harness only"])
 
+BI = ["contracts.batch_independence"]
+PROPS["C03"] = dict(level="proof",
+    units=[U(BI, f"{VI}._update_values", tag="rel", timeout_ms=30000), U(BI, f"{VI}._extract_policy", tag="rel", timeout_ms=30000), U(BI, f"{SOLV}._initialize_values", tag="rel", timeout_ms=30000),
+           U(BI, f"{PI}._calculate_policy_values", tag="rel", timeout_ms=30000)]
+        + PROPS["C18"]["units"]
+        + [U(SAM, f"{SA}._calculate_updated_value_scan_state_batches", timeout_ms=30000), U(SAM + ["contracts.vi_solve"], f"{SA}._update_values", timeout_ms=20000)],
+    lean=["gs_new_value_near", "gs_fixed_point", "contraction_to_fixed_bound", "singh_yee", "ravel3_inj", "ravel3_surj"],
+    bounded=[dict(name="c03_multidevice", script="harness_devices.py", wall_s=900)],
+    assumptions=SOLVER_ASSUME + ["jax.pmap is modelled as a map over the leading (device) axis: real sharding / device placement is exercised only by the bounded multi-device harness (XLA host-platform device emulation)",
+        "solve-level independence (stopping iteration, gain, history, policy value) follows from kernel-level independence because the C08/C04/C07/C05 loop contracts define the trajectory from these kernels and mention no batch parameter",
+        "for the semi-asynchronous solver the sweep depends on the partition by design; what is claimed is the error bound for every partition (Lean: gs_* quantify over all lists of blocks)"])
+
 HOOK_COMMITS = []
 NOT_APPLICABLE = {
     "C11": "crash atomicity and writer-thread interleavings live inside Orbax's commit protocol, which is not code of this repository; contracts on mdpax's calls can only assume atomic commit, not decide it (DESIGN.md section 6 C11). The contract-shaped fragments (step label, no mutation of a state handed to an asynchronous save, latest-step selection) are discharged under C09/C10/C12.",
